@@ -142,12 +142,13 @@ def handle : List String → String
     match fuelW.toNat?, natList? ws with
     | some fuel, some cps =>
       let toks := (PlasVerif.Model.Tokenizer.tokenize PlasVerif.Model.Catcodes.defaultCats cps).map fromC01
-      s!"{visStr (runProgram fuel toks)}\t{tvisStr (texProgram fuel toks)}"
+      -- aux: the repaired variant of the known finding D49 (the correspondence accepts either, the as-is one is replayed)
+      s!"{visStr (runProgram fuel toks)}\t{tvisStr (texProgram fuel toks)}\t{visStr (runProgramRepaired fuel toks)}"
     | _, _ => "bad-op"
   | "progt" :: fuelW :: ws =>
     -- the same on an explicit token list
     match fuelW.toNat?, toks? ws with
-    | some fuel, some toks => s!"{visStr (runProgram fuel toks)}\t{tvisStr (texProgram fuel toks)}"
+    | some fuel, some toks => s!"{visStr (runProgram fuel toks)}\t{tvisStr (texProgram fuel toks)}\t{visStr (runProgramRepaired fuel toks)}"
     | _, _ => "bad-op"
   | _ => "bad-op"
 
